@@ -135,7 +135,9 @@ class C05(Monitor):
                             tr.exc, cfg['maxsize'], 'positionally' if cfg.get('maxsize_pos') else 'by keyword')))
             return out
         if m == 0:
-            if post != 0:
+            # (a call whose function raised completes nothing: whatever a bulk load() had put into memory stays, which is
+            # within "at most the larger of maxsize and the number resident before the call"; C16 owns that transition)
+            if post != 0 and not (tr.raised is not None and post <= pre):
                 out.append((_sig(cfg, 'C05', 'maxsize0-resident'),
                             'maxsize=0 but %d entries resident after the call' % post))
         elif m is None:
